@@ -9,7 +9,8 @@
 (* The Arias variant carries the irrational factor pi/(2g): there a sample *)
 (* within 1e-12 (relative) of a boundary is accepted on either side.       *)
 (*                                                                         *)
-(* TABLE row: code; for variant in <<vals, arias, cav>>, for each pair:    *)
+(* TABLE row: code; for variant in <<vals, arias, custom callable (running *)
+(*   sum of squares)>>, for each pair:                                     *)
 (*   raised, t0, t1;  then vals/pair 2 with se=False: raised, duration;    *)
 (*   then for each threshold: none, t0, t1, duration (calc_brac_dur).      *)
 (***************************************************************************)
@@ -68,7 +69,8 @@ Conforms == n >= 1 =>
   /\ Chk(Row[1] = code /\ Len(Row) = 122, code, "TableIndex")
   /\ Chk(\A p \in 1..6 : Exact(Sq, p, 1 + 5 * (p - 1)), code, "SigDurIndices")
   /\ Chk(\A p \in 1..6 : Tolerant(CumArias(xs, Dt), p, 31 + 5 * (p - 1)), code, "SigDurArias")
-  /\ Chk(\A p \in 1..6 : Exact(CumCav(xs, Dt), p, 61 + 5 * (p - 1)), code, "SigDurCustomMeasure")
+  \* user-supplied measure (a callable returning the running sum of squares, which does not start at zero)
+  /\ Chk(\A p \in 1..6 : Exact(Sq, p, 61 + 5 * (p - 1)), code, "SigDurCustomMeasure")
   /\ Chk(LET S == I(Sq, 2) IN IF S = {} THEN Row[92] = 1
                               ELSE Row[92] = 0 /\ FEq(Fl(92), FSub(T(Max(S)), T(Min(S)))), code, "SigDurDifference")
   /\ Chk(\A t \in 1..4 : Brac(t, 94 + 7 * (t - 1)), code, "BracIndices")
